@@ -21,6 +21,7 @@ func main() {
 	replay := flag.String("replay", "", "replay file")
 	scale := flag.Float64("scale", 1.0, "multiplies the case budget")
 	list := flag.Bool("list", false, "list engines")
+	dump := flag.Int("dump", 0, "print N generated cases with the implementation's answers and exit")
 	flag.Parse()
 
 	if *list {
@@ -38,6 +39,10 @@ func main() {
 
 	if *replay != "" {
 		os.Exit(doReplay(e, d, *replay))
+	}
+	if *dump > 0 {
+		dumpCases(e, *seed, *tier, *dump)
+		return
 	}
 
 	start := time.Now()
@@ -168,4 +173,27 @@ func atoi(s string) int {
 		panic("harness: bad int " + s)
 	}
 	return n
+}
+
+// dumpCases prints generated cases (debug aid): harness -engine X -dump N
+func dumpCases(e Engine, seed uint64, tier string, n int) {
+	root := NewRand(seed)
+	for i := 0; i < n; i++ {
+		c := e.Gen(root.Fork(), tier)
+		ans, _ := runImpl(e, c.Ops)
+		for j, op := range realOps(c.Ops) {
+			a := ""
+			if j < len(ans) {
+				a = ans[j]
+			}
+			f := strings.Fields(op)
+			for k := range f {
+				if s, ok := unhx(f[k]); ok && k > 0 && len(f[k]) > 1 {
+					f[k] = fmt.Sprintf("%q", s)
+				}
+			}
+			fmt.Println(strings.Join(f, " "), " => ", a)
+		}
+		fmt.Println()
+	}
 }
